@@ -1,7 +1,7 @@
 ------------------------------ MODULE MC_Codec ------------------------------
 (* Theorems about the reference specifications themselves, checked by TLC over complete *)
 (* finite domains: the formats admit loss-free round trips and the helper identities hold. *)
-EXTENDS Knxnet, Addr, TLC
+EXTENDS Knxnet, Addr, Dpt, TLC
 
 CONSTANT Family
 VARIABLE x
@@ -14,11 +14,23 @@ DomC11 == [a : 0..255, b : 0..255, app : BOOLEAN]
 FrameOf(d) == IF d.app THEN [Base EXCEPT !.c1 = d.a, !.c2 = d.b, !.cmd = (d.a % 16), !.seqn = (d.b % 16), !.numbered = (d.a % 2), !.data = <<(d.b % 64), d.a>>]
               ELSE [Base EXCEPT !.c1 = d.a, !.c2 = d.b, !.kind = "ctl", !.cmd = (d.a % 4), !.seqn = (d.b % 16), !.numbered = (d.a % 2), !.data = << >>]
 
-Init == IF Family = "C11" THEN x \in DomC11 ELSE x \in {[a |-> 0, b |-> 0, app |-> TRUE]}
+Init == IF Family \in {"C11", "Dpt"} THEN x \in DomC11 ELSE x \in {[a |-> 0, b |-> 0, app |-> TRUE]}
 Next == UNCHANGED x
 Spec == Init /\ [][Next]_x
 
 ThmC11 == Family = "C11" => RoundTrip(FrameOf(x))
 ThmCtrl == CtrlIdentities
+\* Dpt: the two-octet float format admits drift-free re-encoding: re-encoding the value of any of the
+\* 65,536 words at the least exponent that can hold it (rounding to nearest) yields the same value
+AbsI(v) == IF v < 0 THEN 0 - v ELSE v
+ReEncQ(q) ==
+  LET st == F16StepQ(q)                       \* 16 * 2^E at the least exponent E
+      m == IF q >= 0 THEN (q + st \div 2) \div st ELSE 0 - ((0 - q + st \div 2) \div st)
+  IN m * st
+ThmF16 == (Family = "Dpt" /\ x.app) =>
+            LET w == <<0, x.a, x.b>> q == DecQ("F16", w) IN AbsI(q) >= Huge \/ ReEncQ(q) = q
+\* Dpt: the calendar of the date type
+ThmDate == (Family = "Dpt" /\ ~x.app) =>
+            LET y == 1990 + ((x.a % 100)) m == 1 + ((x.b % 12)) IN Days(m, y) \in 28..31 /\ (Days(2, y) = 29) = (y % 4 = 0 /\ y # 2100)
 ThmAddr == Family = "C18" => RoundTripAll
 =============================================================================
